@@ -16,6 +16,11 @@ CHECKS = {
         note="Trusted: as C11. The model is of the repaired loop (fix commit for D-1).",
         technique="Lean 4 refinement proof (readText refines Reads) + ASan exact-buffer correspondence through gr_make_seg",
         ref="§6 C12"),
+    "C14": dict(
+        text="Proof (Lean 4 kernel), partial: for ALL input byte strings and output sizes the model of lz4::decompress (word-wise overrun copies, u32 length accumulators, size_t wrap of the space test) never reads outside the input nor stores outside the announced output size and returns at most that size (lz4_in_bounds); Face::Table construction from arbitrary bytes never faults and replaces a table only by a complete decompression of exactly the announced size with matching version word (table_all_or_nothing); header split scheme:5/size:27 with REGENERATED constants (MINMATCH, LASTLITERALS, MINCODA, MINSRCSIZE, shift, mask). The 'exactly what a reference decoder produces' and 'valid blocks decode to the plaintext' clauses are decided by correspondence only (model = implementation incl. residual output bytes; implementation vs liblz4 LZ4_decompress_safe; randomised valid encodings of shipped tables), not yet by a theorem.",
+        note="Trusted: Lean kernel + [propext, Classical.choice, Quot.sound]; extractor for Gen.Lz4; hand-written Model/Lz4.lean tied by finite differential runs under ASan; LP64 word size; liblz4 as reference. Not proved: functional equality with the block-format spec (lz4_sound/lz4_complete); whole-font shaping equality of compressed vs uncompressed fonts.",
+        technique="Lean 4 invariant proof (in-bounds for all inputs) over a faithful word-copy model + differential ASan correspondence + liblz4 reference comparison",
+        ref="§6 C14"),
     "C20": dict(
         text="Proof (Lean 4 kernel) that the model of gr_str_to_tag on a buffer ending at the NUL never reads outside it and returns the big-endian zero-padded tag for all byte values; that gr_tag_to_str stores exactly cells 0..3; round trip on four-character tags; the padding if-chain REGENERATED from gr_face.cpp/gr_segment.cpp zeroes trailing spaces for every tag, is idempotent, and the two source copies are equal. Model tied to the code by differential execution on exact-size heap buffers under ASan (all strings of length<=2 over 256 byte values, boundary bytes up to length 8, 4-byte and 8-byte output buffers).",
         note="Trusted: Lean kernel + [propext, Classical.choice, Quot.sound]; extractor for Gen.Pads; hand-written Model/Tag.lean tied only by finite differential runs; tag-taking entry points (lang/feature lookups) are covered with C18.",
